@@ -60,6 +60,7 @@ func driveC09(t *testing.T, out *vEmitter) {
 	defer vC09NonRefreshing(t, out)
 	defer vC09MaxAgeHosts(t, out)
 	defer vC09NoRefreshToken(t, out)
+	defer vC09EntryExpiresDuringRefresh(t, out)
 	r := vRand()
 	secret := "0123456789abcdefghijklmnopqrstuv"
 	name := "_oauth2_proxy"
@@ -439,6 +440,61 @@ func vC09MaxAgeHosts(t *testing.T, out *vEmitter) {
 					out.Obs("max-age-hosts", true, vL(vS(h), vStrs(domains), vBool(redis), vBool(big), vI(int64(n))))
 					out.Stat("maxage_host_cases", 1)
 				}
+			}
+		}
+	}
+}
+
+// vC09EntryExpiresDuringRefresh: the server-side entry of a session due for refresh runs out (its TTL is the session's
+// lifetime) between the request's first load and the reload it does once it holds the refresh lock.  The store's verdict
+// stands: the request is not served, nothing is written back with a fresh lifetime, no cookie with a fresh Max-Age is set.
+func vC09EntryExpiresDuringRefresh(t *testing.T, out *vEmitter) {
+	vKeys()
+	for _, hasRT := range []bool{true, false} {
+		e := vNewEnv(t, vEnvCfg{oidc: true, redis: true, mod: func(o *options.Options) {
+			o.Providers[0].OIDCConfig.InsecureSkipNonce = true
+			o.Cookie.Expire = time.Hour
+			o.Cookie.Refresh = 5 * time.Minute
+		}})
+		for _, kind := range []vFault{vMissing, vErrBefore} {
+			b := e.newBrowser("https://app.example.com")
+			s := b.seedSession("user@example.com", 10*time.Minute, 20)
+			if !hasRT {
+				s.RefreshToken = ""
+				vReseed(b, s)
+			}
+			e.idp.refreshTo("user@example.com", 20)
+			e.redis.ResetOps()
+			// operations of the request: 0 load, 1 obtain the lock, 2 reload
+			e.redis.mu.Lock()
+			e.redis.faults[2] = kind
+			e.redis.mu.Unlock()
+			r := b.get("/page")
+			ops := e.redis.Ops()
+			e.redis.ResetOps()
+			wrote := false
+			var kinds []string
+			for _, op := range ops {
+				kinds = append(kinds, op.Kind)
+				if op.Kind == "set" {
+					wrote = true
+				}
+			}
+			fresh := false
+			for _, c := range r.Cookies {
+				if c.Name == e.opts.Cookie.Name && c.MaxAge > 0 {
+					fresh = true
+				}
+			}
+			out.Obs("entry-expires-during-refresh", true, vL(vBool(hasRT), vS(vFaultNames[kind]), vI(int64(r.Status)), vBool(r.Hit()), vBool(wrote), vBool(fresh)))
+			out.Stat("entry_expires_during_refresh", 1)
+			if len(ops) < 3 || ops[2].Kind != "get" {
+				out.Violation("control/reload-not-third-operation", "the reload under the lock is not the request's third store operation: the fault was not placed on it", map[string]interface{}{"ops": kinds})
+				continue
+			}
+			if r.Hit() || wrote || fresh {
+				out.Violation("lifetime/revived-after-store-expiry", "a session whose server-side entry had run out (the reload under the refresh lock found nothing) was honoured, written back or given a fresh cookie",
+					map[string]interface{}{"reload": vFaultNames[kind], "has_refresh_token": hasRT, "served": r.Hit(), "written_back": wrote, "fresh_cookie": fresh, "status": r.Status, "store_operations": kinds})
 			}
 		}
 	}
